@@ -1693,3 +1693,82 @@ Proof. intros H m. split; [apply (pend_proj nkind)|apply (pend_proj decl)]; auto
 
 Lemma pend_valueOf s t a : pend_eq s t -> valueOf t a = valueOf s a.
 Proof. intros H. apply valueOf_shape; [apply pend_shape, H|]. intros m _. apply (pend_proj value); auto. Qed.
+
+(** updates of other fields commute with the sets *)
+Definition pend_compat (f : node -> node) : Prop :=
+  (forall y, nkind (f y) = nkind y) /\ (forall y, value (f y) = value y) /\ (forall y, pending (f y) = pending y) /\
+  (forall y q, f (y <| pending := q |>) = f y <| pending := q |>).
+
+Lemma alter_alter_comm (mp : gmap nid node) f g n v :
+  (forall y, f (g y) = g (f y)) -> alter f v (alter g n mp) = alter g n (alter f v mp).
+Proof.
+  intros H. destruct (decide (v = n)) as [->|Hne].
+  - rewrite <- !alter_compose. apply alter_ext. intros y _. apply H.
+  - apply alter_commute. exact Hne.
+Qed.
+
+Lemma varSetD_upd s n f v x : pend_compat f -> varSetD (upd s n f) v x = upd (varSetD s v x) n f.
+Proof.
+  intros (F1 & F2 & F3 & F4). unfold varSetD.
+  rewrite (nd_upd_proj nkind s n f v F1), (nd_upd_proj pending s n f v F3), (nd_upd_proj value s n f v F2).
+  destruct (_ && _ && _); [reflexivity|].
+  apply state_ext; try reflexivity. cbn. apply alter_alter_comm. intros y. symmetry. apply F4.
+Qed.
+
+Lemma setAct_upd s n f a : pend_compat f -> setAct (upd s n f) a = upd (setAct s a) n f.
+Proof.
+  intros F. destruct a as [k|v x|v d]; cbn [setAct]; [reflexivity|apply varSetD_upd, F|].
+  destruct F as (F1 & F2 & F3 & F4).
+  rewrite (nd_upd_proj pending s n f v F3), (nd_upd_proj value s n f v F2).
+  apply varSetD_upd. repeat split; assumption.
+Qed.
+
+Lemma setsT_upd acts : forall s n f, pend_compat f -> setsT acts (upd s n f) = upd (setsT acts s) n f.
+Proof.
+  induction acts as [|a acts IH]; intros s n f F; [reflexivity|]. cbn [setsT foldl].
+  fold (setsT acts (setAct (upd s n f) a)). fold (setsT acts (setAct s a)).
+  rewrite (setAct_upd s n f a F). apply IH, F.
+Qed.
+
+Lemma pend_compat_stamp k : pend_compat (set recomputedAt (fun _ => k)).
+Proof. repeat split. Qed.
+
+(** running the node with the plan = running it without a plan on the state where its sets have
+    been applied *)
+Lemma rnp_shift fuel p s n :
+  has s n -> is_lhs (nkind (nd s n)) = false -> status s = 1 ->
+  (forall a, a ∈ nodeActs p s n -> is_fault a = false) ->
+  recomputeNodeParallel fuel p s n = recomputeNodeParallel fuel [] (setsT (nodeActs p s n) s) n.
+Proof.
+  intros Hn Hk Hst Hnf.
+  set (A := nodeActs p s n) in *. set (s' := setsT A s).
+  pose proof (pend_eq_setsT A s) as PE. pose proof (rest_eq_setsT A s) as RE.
+  assert (Hstab : stabNum s' = stabNum s) by apply RE.
+  unfold recomputeNodeParallel. rewrite Hstab.
+  set (s0 := upd s n (set recomputedAt (fun _ => stabNum s))).
+  set (s0' := upd s' n (set recomputedAt (fun _ => stabNum s))).
+  assert (E0 : setsT A s0 = s0') by (apply setsT_upd, pend_compat_stamp).
+  assert (Hst0 : status s0 = 1) by exact Hst.
+  assert (Hkind : nkind (nd s' n) = nkind (nd s n)) by (apply (pend_proj nkind); auto).
+  assert (Hdecl : decl (nd s' n) = decl (nd s n)) by (apply (pend_proj decl); auto).
+  assert (Hval : value (nd s' n) = value (nd s n)) by (apply (pend_proj value); auto).
+  assert (Hk0 : nkind (nd s0 n) = nkind (nd s n)) by (apply (nd_upd_proj nkind); reflexivity).
+  assert (Hk0' : nkind (nd s0' n) = nkind (nd s n)) by (unfold s0'; rewrite (nd_upd_proj nkind) by reflexivity; exact Hkind).
+  assert (Hd0 : decl (nd s0 n) = decl (nd s n)) by (apply (nd_upd_proj decl); reflexivity).
+  assert (Hd0' : decl (nd s0' n) = decl (nd s n)) by (unfold s0'; rewrite (nd_upd_proj decl) by reflexivity; exact Hdecl).
+  assert (Hv : forall a, valueOf s0' a = valueOf s0 a).
+  { intros a. rewrite <- E0. apply pend_valueOf, pend_eq_setsT. }
+  rewrite Hkind, Hdecl, Hval.
+  unfold A, nodeActs in *. destruct (nkind (nd s n)) eqn:Ek; try discriminate.
+  6: { (* KCutoff *)
+    rewrite (invoke_sets p s0 n WCut Hst0 Hnf), E0. rewrite ?Hd0, ?Hd0', ?Hv.
+    change (invoke [] s0' n WCut) with (Ok (s0', @None err)). cbn [rbind].
+    destruct (apCut _ _ _); [reflexivity|].
+    unfold stabilizeNode. change (nd (emit ?e s0') n) with (nd s0' n). rewrite ?Hk0', ?Hd0'. reflexivity. }
+  all: cbn [rbind]; unfold stabilizeNode; rewrite ?Hk0, ?Hk0', ?Hd0, ?Hd0', ?Hv.
+  all: try reflexivity.
+  - (* KMap *)
+    rewrite (invoke_sets p s0 n WFn Hst0 Hnf), E0. reflexivity.
+  - rewrite (invoke_sets p s0 n WFn Hst0 Hnf), E0. reflexivity.
+  - rewrite (invoke_sets p s0 n WFn Hst0 Hnf), E0. rewrite (map_ext _ _ Hv). reflexivity.
+Qed.
